@@ -354,6 +354,8 @@ def check_C11(run):
     ts = pvts.TraceStoreEngine(run, se)
     run.build()
     suites = [
+        dict(name='fault-big', consts=dict(Keys='{1}', MaxTs='2', Sizes='{"s", "e4k+"}'), genlen=3,
+             acts=['write', 'close_active'], nkeys=1, sample=(1, 6) if q else (1, 1)),
         dict(name='fault-1k', consts=dict(Keys='{1}', MaxTs='2'), genlen=4,
              acts=['write', 'delete', 'close_active', 'restore_active', 'create_active', 'force_update'], nkeys=1,
              sample=(1, 50) if q else (1, 4)),
@@ -425,9 +427,12 @@ def check_C11(run):
             hist = ' '.join('%s%s' % (e.get('a', ''), '' if e.get('mode') in (None, 'normal') else '[' + e['mode'] + ']') for e in ex if e.get('ev') == 'step')
             faulted = [e for e in ex if e.get('mode') in ('failed', 'degraded')]
             fa = faulted[0]['a'] if faulted else ''
+            steps_only = [e for e in ex if e.get('ev') == 'step']
+            fi = next((i for i, e in enumerate(steps_only) if e.get('mode') in ('failed', 'degraded')), len(steps_only))
+            after_failed = [e.get('a') for e in steps_only[fi + 1:]]
             text = ('execution not explained by the specification at step "%s" (mode %s, result %s/%s): history %s; observed %s'
                     % (step.get('a'), step.get('mode'), step.get('rt'), step.get('rn'), hist, json.dumps(step.get('obs'))[:400]))
-            return text, dict(kind='store-trace', action=step.get('a', ''), faulted_action=fa, mode=step.get('mode', ''))
+            return text, dict(kind='store-trace', action=step.get('a', ''), faulted_action=fa, mode=step.get('mode', ''), after_failed=after_failed)
 
         from concurrent.futures import ThreadPoolExecutor
         jobs = [(tr, 'ts-%s-%s' % (s['name'], os.path.basename(tr)[7:-7])) for p, out, tr, h in procs if os.path.getsize(tr) > 0]
@@ -472,6 +477,8 @@ def check_C14(run):
         dict(name='cancel-1k', consts=dict(Keys='{1}', MaxTs='2', Sizes='{"s", "e4k+"}'), genlen=3 if q else 4,
              acts=['write', 'delete', 'close_active', 'restore_active', 'create_active', 'fsync'], nkeys=1,
              sample=(1, 12) if q else (1, 3)),
+        dict(name='cancel-life', consts=dict(Keys='{1}', MaxTs='1'), genlen=4 if q else 5,
+             acts=['write', 'delete', 'close_active', 'restore_active'], nkeys=1, sample=(1, 3) if q else (1, 1)),
         dict(name='cancel-2k', consts=dict(Keys='{1, 2}', MaxTs='2'), genlen=4,
              acts=['write', 'delete', 'close_active', 'create_active'], nkeys=2, sample=(1, 400) if q else (1, 30)),
     ]
